@@ -385,6 +385,18 @@ def oracle(case, r):
             left = []
     if all(o in ("done", "killed") or o.startswith("failed") for o in r["outcomes"]) and left:
         yield ("no_residue", residue_class(case, r), "every process has finished and %r is left" % (r["residue"],))
+    clears = [t for t, x in enumerate(r["trace"]) if x[1] == "clearLocks"]
+    if clears:
+        # after `eups admin clearLocks` the lock is free: a request that starts after it, alone, is granted
+        t0 = clears[-1]
+        rest = [x for x in r["trace"][t0 + 1:] if x[0] >= 0 and x[1] not in ("-", "signal", "sigkill")]
+        if rest and rest[0][1] == "mkdir":
+            p = rest[0][0]
+            mine = [x[1] for x in rest if x[0] == p]
+            alone = all(x[0] == p for x in rest[:len(mine)])        # its whole request ran before anybody else moved
+            fresh = not any(x[0] == p and x[1] != "-" for x in r["trace"][:t0])
+            if fresh and alone and "work" not in mine and r["outcomes"][p] == "failed:RuntimeError":
+                yield ("clearLocks_frees", None, "process %d asked for the lock right after clearLocks, alone, and was refused: %r" % (p, mine[:6]))
     if ghosts:
         # a stale lock blocks: before the administrator clears it, nobody incompatible with it (and not its owner's child)
         # gets into its command body
